@@ -357,7 +357,8 @@ def sensitivity (p : Prob Rat) (v0 : Rat) (i : Nat) : Option Rat :=
 
 /-- shadow prices are compared at 5e-6 (relative above 1): the interior-point duals carry up to ~1.5e-6 of noise on
 near-degenerate vertices (1 case in 8000), while every effect the check is meant to see is ≥ 1e-5. -/
-def closeAbs (a b : Rat) : Bool := rabs (a - b) ≤ 5 * tol6 * rmax 1 (rabs b)
+def closeAbsS (cscale : Rat) (a b : Rat) : Bool := rabs (a - b) ≤ 5 * tol6 * rmax 1 (rabs b) + cscale / 10000000
+def closeAbs (a b : Rat) : Bool := closeAbsS 0 a b
 
 def checkShadow (lm : LinModel (Ext Rat)) (r : ImplRes (Ext Rat)) : Sexp :=
   match ofLinModel lm with
@@ -389,6 +390,8 @@ def checkShadow (lm : LinModel (Ext Rat)) (r : ImplRes (Ext Rat)) : Sexp :=
           | none => okS [.atom "skipped", .atom "kink-within-eps"]
           | some want =>
             let active := dot row.coeffs x == row.rhs
+            -- duals scale with the objective: the interior-point noise is up to ~4e-8·‖c‖∞ on badly scaled objectives, so 1e-7·‖c‖∞ is added to the tolerance
+            let closeAbs := closeAbsS ((p.obj.map rabs).foldl rmax 0)
             if !active && !(closeAbs got 0) then viol "inactive-row-nonzero-shadow-price" [.str lr.name, encRat got]
             else if !(closeAbs got want) then
               (if closeAbs got (-want) then viol "shadow-price-wrong-sign" [.str lr.name, encRat got, encRat want]
